@@ -114,8 +114,12 @@ def parse_obs(line):
         elif k == 5: out.append(('res', t[i + 1])); i += 2
         elif k == 6: out.append(('pollend',)); i += 1
         elif k == 7: out.append(('ctx', t[i + 1])); i += 2
+        elif k == 8: out.append(('inj', t[i + 1], t[i + 2])); i += 3
         else: out.append(('?', k)); i += 1
     return out
+
+
+FIRED = []   # (id(poll cmd), yield, visit) of the injections that fired in the last align() call
 
 
 def align(case, obs):
@@ -124,6 +128,8 @@ def align(case, obs):
     known statically, alignment walks the stream: top-level commands in order; within a poll segment
     (up to 'pollend') the 'res' tokens are matched with the injected commands in (visit order as listed)."""
     res = []   # (cmd, code, position in obs)
+    self_fired = FIRED
+    del self_fired[:]
     pos = 0
     def next_res():
         nonlocal pos
@@ -133,12 +139,19 @@ def align(case, obs):
     for c in case.cmds:
         if c[0] == 'poll':
             # injected commands that produce results, in listed order (the generator lists them in firing order)
-            pend = [s for (_, _, cs) in c[1] for s in cs if s[0] in ('log', 'resume', 'flush', 'exit', 'initbt', 'flushbt')]
+            # injected commands run only when their yield point is reached: the stream says which ones fired ('inj' tokens)
+            pend = []
             while True:
-                p = next_res()
+                while pos < len(obs) and obs[pos][0] not in ('res', 'ctx', 'pollend', 'inj'):
+                    pos += 1
+                p = pos
                 if p >= len(obs): break
                 if obs[p][0] == 'pollend': pos = p + 1; break
-                if obs[p][0] == 'res' and pend:
+                if obs[p][0] == 'inj':
+                    fired = [s for (y, v, cs) in c[1] if (y, v) == (obs[p][1], obs[p][2]) for s in cs]
+                    self_fired.append((id(c), obs[p][1], obs[p][2]))
+                    pend += [s for s in fired if s[0] in ('log', 'resume', 'flush', 'exit', 'initbt', 'flushbt')]
+                elif obs[p][0] == 'res' and pend:
                     res.append((pend.pop(0), obs[p][1], p))
                 pos = p + 1
         elif c[0] in ('log', 'resume', 'flush', 'exit', 'initbt', 'flushbt'):
@@ -196,7 +209,7 @@ class Track:
                     if t in pending or t in dead: d['outcome'] = 'ignored'
                     elif lvl < levels[lgi]: d['outcome'] = 'filtered'
                     elif code == 2: d['outcome'] = 'parked'; pending[t] = ('log', i)
-                    elif code == 1: d['outcome'] = 'accepted'; d['ret'] = pos
+                    elif code == 1: d['outcome'] = 'accepted'; d['ret'] = pos; d['commit_clock'] = clock
                     else: d['outcome'] = 'dropped'; d['ret'] = pos
                 elif kind == 'flush':
                     t, i = c[1], c[2]
@@ -213,7 +226,7 @@ class Track:
                         if code != 2:
                             del pending[t]
                             if what == 'log':
-                                self.stmts[i]['outcome'] = 'accepted' if code == 1 else 'dropped'; self.stmts[i]['ret'] = pos
+                                self.stmts[i]['outcome'] = 'accepted' if code == 1 else 'dropped'; self.stmts[i]['ret'] = pos; self.stmts[i]['commit_clock'] = clock
                             elif what == 'flush':
                                 self.flushes[i]['ret'] = pos
                 elif kind in ('initbt', 'flushbt'):
@@ -224,10 +237,14 @@ class Track:
                 elif kind == 'exit':
                     t = c[1]
                     if code == 1: dead.add(t); self.exits.append((pos, t))
+        fired = list(FIRED)
         for c in case.cmds:
             if c[0] == 'poll':
-                for (_, _, cs) in c[1]:
-                    for s in cs: handle(s)
+                for (pid, y, v) in fired:
+                    if pid == id(c):
+                        for (y2, v2, cs) in c[1]:
+                            if (y2, v2) == (y, v):
+                                for s in cs: handle(s)
             else:
                 handle(c)
         self.pending = pending
